@@ -23,20 +23,10 @@ from sa.poly import RF, fn_atom
 from sa.selftest import Edit, Variant
 from sa.sym import (ClassRef, Cond, Interp, Rec, SymStr, Undecided, closure_of, explore, method_of, to_rf, simplify_num)
 
-EXPLANATION = (
-    "Abstract interpretation of the path rewrites of svg_types.py over a term domain (letters concrete, numbers rational functions of "
-    "symbols), case-split over the 20 command letters, all 400 ordered pairs (previous, current) and, in the thorough tier, all 8000 "
-    "triples after the initial moveto, plus leading relative moveto; each rewritten sequence is compared component-wise (polynomial "
-    "normal forms) with a reference interpreter of SVG 1.1 section 8.3 transcribed from the specification, and its letters with the target "
-    "form the rewrite promises. Basic-shape builders are specialised likewise and compared with the SVG 1.1 chapter 9 outlines. "
-    "Coordinate index tables are compared with the specification. Near-start snapping paths (a 1e-9 comparison on runtime values) are "
-    "checked for structure only."
-)
-ASSUMPTIONS = [
-    "floating-point rounding of the arithmetic is ignored (identities hold in exact rational arithmetic)",
-    "arc_to_cubic is replaced by a stub returning symbolic control points (its own geometry is C12)",
-    "round() is CPython's (half-ulp behaviour not analysed)",
-]
+from sa.texts import T as _T
+
+EXPLANATION = _T["C09"]["explanation"] + " Not decided: " + _T["C09"]["not_decided"] + "."
+ASSUMPTIONS = _T["C09"]["assumptions"]
 P = "C09"
 
 TARGET = {
